@@ -41,6 +41,9 @@ PLAN = {
     "C02": lanes("C02", ["sse2", "scalar"], ["coresimd", "libm", "fma"], engine="e_geom"),
     "C03": lanes("C03", ["sse2", "scalar"], ["coresimd", "fma"], engine="e_geom"),
     "C04": lanes("C04", ["sse2", "scalar"], ["coresimd", "fma"], engine="e_geom"),
+    "C05": lanes("C05", ["sse2", "scalar"], ["coresimd"], engine="e_geom"),
+    "C06": lanes("C06", ["sse2", "scalar"], ["coresimd"], engine="e_geom"),
+    "C09": lanes("C09", ["sse2", "scalar"], ["coresimd", "libm"], engine="e_geom"),
     "C13": lanes("C13", ["sse2", "dbg"], ["scalar"]),
     "C14": lanes("C14", ["sse2", "scalar"], ["coresimd"]),
     "C15": lanes("C15", ["sse2", "scalar", "coresimd"], []),
@@ -52,6 +55,9 @@ for _p in ("C13",):
         _r["shards"] = {"quick": 8, "thorough": 16}
 
 RULES = {
+    "C05": "Events: (a) every typed conversion path of length <= 4 through the 9-node 3-D representation graph (Quat, Mat3, Mat3A, Mat4, Affine3A, DQuat, DMat3, DMat4, DAffine3; 39 edges incl. f32<->f64 casts) from seeds of four classes (pure rotation from the structured unit-quaternion generator, rigid, general affine with scale/shear, linear): at every node every action form (q*v, M*v, transform_point3/vector3(a), project_point3, M*(p,1)) on probe points is compared with the double-double action of the seed under k*eps_path*(|M|max*|p|+|t|); (b) matrix->quaternion->matrix round trips with bookkeeping of the four conversion branches and their boundaries (a branch never taken makes the run inconclusive); (c) laws: conversion commutes with composition, inversion, identity; (d) the 2-D graph (Affine2, Mat3, Mat3A, Mat2, f64 forms). distinct = distinct (path length, end representation) / (branch, generator kind, boundary flag).",
+    "C06": "For each of the 11 matrix/affine types: entries tagged with pairwise distinct bit patterns (NaN payloads, -0, subnormal, infinities; then random bits) are written through every write path (from_cols, from_cols_array, from_cols_array_2d, from_cols_slice incl. longer slices, col_mut, axis fields, AsMut) and read through every read path (to_cols_array(_2d), write_cols_to_slice, col(c)[r], row(r)[c], axis fields, AsRef): every ordered pair of paths, every (r,c), bit-for-bit; transpose; from_diagonal; all (i,j) of the six minor constructors incl. out-of-range (must panic); col/row/col_mut index range; affine transform_point = linear*p + translation under an analytic bound and transform_vector bit-identical when only the translation changes.",
+    "C09": "Events: from_axis_angle / from_rotation_x,y,z / from_scaled_axis on Quat, Mat3, Mat3A, Mat4, Affine3A and f64 forms vs the Rodrigues matrix evaluated in double-double from the same angle value (angles dense in [-4pi,4pi], multiples of pi/2 +- 1e-3, tiny, up to 1e6 rad; uniform, axis-aligned and near-axis unit axes), orthonormality, det +1, unit quaternions; from_euler for all 24 variants vs the product of the three reference single-axis rotations in the spelled order (Ex reversed), identically on all types; to_euler rebuild on arbitrary unit quaternions and on triples whose middle angle is within 1e-7.5..1 of the singularity (inputs built by the reference, not by glam), tolerance 16 eps (1 + 1/d) with d measured on the input matrix, 64 eps inside the gimbal branch; to_axis_angle / to_scaled_axis rebuild; 2-D from_angle forms, to_angle, rotate. distinct = (order, zone) / (generator kinds).",
     "C02": "Every event is one call of a geometric method of a float vector type on generated inputs (dense / moderate / mixed-magnitude / single-axis / small-integer / range-edge / sparse / unit vectors crossed with independent, near-parallel, near-antiparallel, near-orthogonal, exactly parallel and same-scale partners; the lattice of zero / subnormal / tiny / huge / non-finite values for the normalize family). The result is compared with the value recomputed in f64 (f32 APIs) or double-double (f64 APIs) under |err| <= k*eps*S with S = sum of |terms| of the documented formula; angles against atan2(|a x b|, a.b); fallbacks of the normalize family bit-for-bit. Inputs whose intermediate products under/overflow are counted as out of domain. Non-trivial = the exact result is well above the bound (distinguishable from zero); distinct = distinct (type, op, generator-kind pair).",
     "C03": "Events: (a) exact integer lattice - all 83521 2x2 matrices in [-8,8], the 3x3 lattice [-2,2] (stride 7 quick, all 1953125 thorough), random dense / sparse / rank-deficient / signed-permutation integer matrices of every size: products, determinant, transpose, add/sub/scale through every method/operator form must be exact, inverse*det the exact adjugate; (b) random bit patterns for transpose/neg; (c) real matrices U*diag*V with condition number up to 1e4 (f32) / 1e10 (f64): per-entry bounds k*eps*S for products and determinant (S = sum of |terms|), inverse against adj/det with k*eps*(adjabs/|det| + |inv|*detabs/|det|), and M*inv = inv*M = I. distinct = distinct (type, generator kind, condition decade).",
     "C04": "Events: integer quaternions in [-8,8] (exact Hamilton product through every product form), random bit patterns for conjugate/neg (sign-bit xor on x,y,z only), random unit (structured: uniform, near-identity, near/at half-turn, single-axis, w near 0) and non-unit quaternions for +,-,*s,/s,dot,length,normalize and the product (k*eps*sum|terms|), and rotation of vectors by unit quaternions through every form (mul_vec3, *, mul_vec3a, Vec3A) against the f64/double-double evaluation of q v q^-1 with 16*eps*|v|, length preservation, (qp)v = q(pv), q^-1(qv) = v, (-q)v = qv.",
